@@ -28,7 +28,8 @@ RULE = (
 REQUIRED = ["history.reports_succeed", "history.live_set", "history.solve", "history.rail_rep", "history.params",
             "history.phases", "history.save", "history.structure", "shown.params", "shown.limits", "shown.phases",
             "detour.extra_add_delete", "detour.replace_kind", "detour.rename_late", "detour.via_intermediate",
-            "detour.mux_input_reparented", "detour.move", "detour.scratch_until_end", "detour.mux_via_temp_rail"]
+            "detour.mux_input_reparented", "detour.move", "detour.scratch_until_end", "detour.mux_via_temp_rail",
+            "detour.scratch_mux_deleted_via_its_source"]
 SIZES = {"quick": 110, "thorough": 900}
 ASSUMPTIONS = ["numeric cells are compared to 1e-9 relative (summation order of sibling currents depends on edge order)",
                "a detour history in which the code rejects a call is outside the quantifier (successful histories) and is "
@@ -105,6 +106,16 @@ def plan_history(rng, T, rate):
             ops.append({"op": "add_comp", "parent": first["name"], "comp": hist.comp_entry(rng, rng.choice(["ILoad", "RLoss", "Converter"]), sn)})
             scratch.append(sn)
         used.append("scratch_until_end")
+    if rng.random() < 0.25:
+        # a scratch PMux (fed by the first source and a scratch source) that disappears when its scratch SOURCE is
+        # deleted with its children: the mux goes as a descendant, never named in a del_comp call; the indices it
+        # and its load occupied are recycled by the components added afterwards
+        ops.append({"op": "add_source", "comp": hist.comp_entry(rng, "Source", "~q0")})
+        ops.append({"op": "add_comp", "parent": [first["name"], "~q0"], "comp": hist.comp_entry(rng, "PMux", "~qm")})
+        ops.append({"op": "add_comp", "parent": "~qm", "comp": hist.comp_entry(rng, "ILoad", "~ql")})
+        ops.append({"op": "analyse", "what": rng.choice(["solve", "save", "params"])})
+        ops.append({"op": "del_comp", "name": "~q0", "del_childs": True})
+        used.append("scratch_mux_deleted_via_its_source")
     for c in order[1:]:
         n = c["name"]
         parents_now = [cur[p] for p in c["parents"]]
@@ -322,7 +333,7 @@ def run(ctx, case):
         if resE["tree"][0] == "ok":
             txt = resE["tree"][1]
             missing = [n for n in names if n not in txt]
-            ghosts = [t for t in ("~x", "~t_", "~i", "~s", "~r_") if t in txt]
+            ghosts = [t for t in ("~x", "~t_", "~i", "~s", "~r_", "~q") if t in txt]
             ctx.check("history.live_set", not missing and not ghosts, dict(det, tree_missing=missing, ghosts=ghosts))
         # values equal to the freshly built system
         for name, keys in (("solve", ("Component", "Phase")), ("rail_rep", ("Rail", "Phase", "Component")),
